@@ -6,7 +6,9 @@ ASBUILT = {
   pump's flow junction or elsewhere and a leak sink (added after seeded change S01 was missed); thorough adds the repository
   suite under the monitor. Observed on the tree: max |imbalance| 1e-13 kg/s for undamped final steps, <= 5e-5 for constant
   alpha 0.3 within the derived bound. **Found:** with `automatic` damping an accepted last step was partially undone
-  (`nodal_imbalance`, seed 1) - fixed.""",
+  (`nodal_imbalance`, seed 1) - fixed. Every 40th case is a **transient heat time series** (3-5 steps on one net object with
+  ConstControl load profiles, sequential / bidirectional, the internal tables re-used from step to step) whose every pipeflow is
+  monitored through a sink on hook H1 (added after seeded change R2_C01: loads accumulating in the re-used node table).""",
 "C02": """* **As built (`props/c02.py`, `monitors.mon_c02`):** all 8 library fluids x 3 friction models x numba on/off, load scale swept
   over 6 decades, heights, loss coefficients, 1-4 sections, ju/pi valves, heat exchangers; 75 % tight solves. A second workload
   (quarter of the cases) solves hot-water meshes and heating loops in `bidirectional` mode (added after seeded change S02):
@@ -62,7 +64,11 @@ ASBUILT = {
   NaN flow (laminar part NaN vs 0 while Re is NaN in both), catastrophic cancellation of the mean-pressure formula for nearly
   equal pressures (forward error bound eps p/|p-p1|), the 1e-10 kg/s zero-flow cut of the thermal node term (<= 1e-4 W).
   (b) 160 / 3000 engine pairs (gas, water, thermal), (c) 80 / 1500 update-matrix sequences with changed loads vs fresh runs
-  (rtol 1e-9, observed 0). Thorough sets `NUMBA_BOUNDSCHECK=1`.""",
+  (rtol 1e-9, observed 0) - in hydraulics, sequential and bidirectional mode, on nets with valves, pumps / compressors, pressure
+  controllers and heating loops, loads = sinks, sources, flow controllers, heat consumers. Thorough sets `NUMBA_BOUNDSCHECK=1`.
+  **Found and fixed:** numpy grouped sums as differences of a running sum (lambda off by 1e-6 relative next to a creeping-flow
+  pipe; thorough tiers of C06 / C07 / C08); `only_update_hydraulic_matrix` raising KeyError / IndexError in the thermal modes
+  and not converging with a pressure controller (reported by a seeding agent, reproduced after (c) was widened).""",
 "C08": """* **As built (`props/c08.py`):** reference run (constant damping) vs three variants with redrawn `pn_bar` and / or `tfluid_k`
   and alternating damping method; `tfluid_k` only in bidirectional mode and in heat mode on a fixed hydraulic solution.
   Observed deviation <= 3e-6 relative inside the conditioning rules of section 3.""",
@@ -71,7 +77,8 @@ ASBUILT = {
   zeta/n each, merge sections (liquid, uniform temperature), aggregate or split loads incl. source -> negative sink, drop
   disabled elements, shift fixed pressures (liquids)}; hydraulic cases for gas and water, thermal cases (sequential,
   bidirectional) for reverse and split. In hydraulics mode `t_outlet_k` of a reversed branch is only the start temperature of
-  the other junction and is not compared. **Found and fixed:** branch start temperatures copied before feeders wrote theirs
+  the other junction and is not compared. Nets with pumps / compressors carry out-of-service stand-by machines of another type
+  before or after the running one (added after seeded change R2_C09 was missed). **Found and fixed:** branch start temperatures copied before feeders wrote theirs
   (two-pass `initialize_pit`), pi-valve node keeping a stale junction temperature, `dp_friction_loss_bar` averaged over
   sections, `t_outlet_k` taken from the wrong section for reverse flow, and (shared with C02) zeta per section.""",
 "C10": """* **As built (`props/c10.py`, `monitors.mon_c10`):** passive meshes (1-2 pt feeders, reverse flow, 1-3 sections, U 0-25,
@@ -108,7 +115,7 @@ ASBUILT = {
   property classes, user pump types, custom columns, None names, geodata, ConstControl controllers, multinets with a P2G
   controller. JSON paths: row order exempt; float differences explainable by the 15-decimal text format and inf -> NaN are
   classified as the two **open findings** (encoder of the pandapower dependency), anything else is a violation; results of a
-  pipeflow on the loaded net are bit-identical for pickle and within 1e-7 for JSON. **Found and fixed:** `net.converged`
+  pipeflow on the loaded net (tight solves on both sides) are bit-identical for pickle and equal within 1e-7 under the conditioning rules of `pvmon.compare` for JSON. **Found and fixed:** `net.converged`
   (numpy bool False) read back as True.""",
 "C16": """* **As built (`props/c16.py`):** 16 single + 11 bulk create functions on nets of four sectors, empty and populated; optional
   arguments randomly omitted; per function one invalid argument at each reference position, duplicate index, unknown standard
